@@ -3,14 +3,14 @@ PROP = dict(
     technique="property-based testing (rapid), differential: one generated logical history written through every write path into identically configured fields, probed with one query battery and compared with a reference model and pairwise",
     level_text="A generated history of set and clear batches (with duplicates, redundant sets and set-then-clear, over up to 4 shards) is written into one "
                "fresh index per path: Set()/Clear() PQL, API.Import by ids, API.Import by keys, API.ImportRoaring with the Pilosa and with the official roaring "
-               "encoding (one bitmap per view), API.ImportValue for int fields, and a mixture that draws the path per batch. Field types: set (ranked/lru/none "
+               "encoding (one bitmap per view), API.ImportValue for int fields (small and bulk-sized requests, set and clear), and a mixture that draws the path per batch. Field types: set (ranked/lru/none "
                "cache), mutex, bool, time (all 10 quanta, with/without standard view) and int, keyed and unkeyed. Every path is then read with the same battery "
                "(Row, Count, Not, Rows, TopN and TopN(ids) after RecalculateCaches, Row/Rows with time ranges, Row(f==v), Row(f != null), Sum, Min, Max, range "
                "predicates) and every answer must equal the model and the other paths. Exploration, not proof.",
     level_note="Trusted: Go toolchain, rapid, the 80-line logical model, the harness's official-roaring encoder (cookie 12346, arrays/bitsets). Encoded in the model as documented "
                "behaviour: ImportRoaring is refused for mutex/bool/int fields (asserted) and does not touch the existence field (Not() differs on that path by design); "
                "TopN is read after RecalculateCaches. Int range predicates (>, <=, !=, filtered Sum) are compared pairwise only; Min/Max counts are not compared (D17, other group). "
-               "Within one mutex/bool/int import batch a column carries one row/value (bulk imports have no documented intra-batch order). Int values cannot be cleared through PQL, so int histories only set.",
+               "Within one mutex/bool/int import batch a column carries one row/value (bulk imports have no documented intra-batch order). Int values cannot be cleared through PQL: int clear batches go through ImportValue(clear) of the stored value on every path. The extra int path bulk sends each set batch as one bulk-sized ImportValue per shard (the entry of a filler column, which every path writes once, repeated to 10001 entries).",
     rule="a case is (field type and options, key mode, 1-5 batches of 1-8 set or clear operations over 1-4 rows x 1-6 columns from a pool straddling shard edges, optional timestamps, "
          "mixture choice, probe parameters); distinct = hash of field options and batches. non-trivial = the history has a duplicate/redundant set or a set-then-clear, touches >= 2 shards and "
          "(time fields) wrote >= 2 time views.",
